@@ -26,7 +26,7 @@ func Request(m Model, pkgImport string) ([]byte, error) {
 	if err != nil {
 		return nil, err
 	}
-	nodes, err := req.NewNodes(int32(1 + len(m.Enums) + len(m.Structs)))
+	nodes, err := req.NewNodes(int32(1 + len(m.Enums) + len(m.Ifaces) + len(m.Structs)))
 	if err != nil {
 		return nil, err
 	}
@@ -37,7 +37,7 @@ func Request(m Model, pkgImport string) ([]byte, error) {
 	fn.SetDisplayName(file)
 	fn.SetDisplayNamePrefixLength(0)
 	fn.SetFile()
-	ntop := len(m.Enums)
+	ntop := len(m.Enums) + len(m.Ifaces)
 	for _, s := range m.Structs {
 		if !s.IsGroup {
 			ntop++
@@ -51,6 +51,11 @@ func Request(m Model, pkgImport string) ([]byte, error) {
 	for _, e := range m.Enums {
 		nn.At(k).SetName(e.Name)
 		nn.At(k).SetId(e.ID)
+		k++
+	}
+	for _, ifc := range m.Ifaces {
+		nn.At(k).SetName(ifc.Name)
+		nn.At(k).SetId(ifc.ID)
 		k++
 	}
 	for _, s := range m.Structs {
@@ -94,6 +99,22 @@ func Request(m Model, pkgImport string) ([]byte, error) {
 		for i, v := range e.Values {
 			es.At(i).SetName(v)
 			es.At(i).SetCodeOrder(uint16(i))
+		}
+	}
+	// interfaces (no methods, no superclasses: only their capability type is of interest here)
+	for _, ifc := range m.Ifaces {
+		n := nodes.At(idx)
+		idx++
+		n.SetId(ifc.ID)
+		n.SetDisplayName(file + ":" + ifc.Name)
+		n.SetDisplayNamePrefixLength(uint32(len(file) + 1))
+		n.SetScopeId(m.FileID)
+		n.SetInterface()
+		if _, err := n.Interface().NewMethods(0); err != nil {
+			return nil, err
+		}
+		if _, err := n.Interface().NewSuperclasses(0); err != nil {
+			return nil, err
 		}
 	}
 	// structs and groups
@@ -214,6 +235,9 @@ func setType(m Model, t schema.Type, kind string, ref int, elem string, elemRef 
 	case "struct":
 		t.SetStructType()
 		t.StructType().SetTypeId(m.Structs[ref].ID)
+	case "interface":
+		t.SetInterface()
+		t.Interface().SetTypeId(m.Ifaces[ref].ID)
 	case "anyptr":
 		t.SetAnyPointer()
 		t.AnyPointer().SetUnconstrained()
@@ -291,6 +315,8 @@ func setDefault(m Model, v schema.Value, f Field) error {
 		return v.SetList(capnp.Ptr{})
 	case "anyptr":
 		return v.SetAnyPointer(capnp.Ptr{})
+	case "interface":
+		v.SetInterface()
 	}
 	return nil
 }
@@ -313,6 +339,7 @@ func CheckFile(m Model) string {
 	p("package gen")
 	p("")
 	p("import (")
+	p("\t\"errors\"")
 	p("\t\"math\"")
 	p("\t\"testing\"")
 	p("")
@@ -321,6 +348,7 @@ func CheckFile(m Model) string {
 	p(")")
 	p("")
 	p("var _ = math.Float32bits")
+	p("var errCap = errors.New(\"c15 capability\")")
 	p("func b2u(b bool) uint64 { if b { return 1 }; return 0 }")
 	p("")
 	p("func TestLayout(t *testing.T) {")
@@ -332,6 +360,15 @@ func CheckFile(m Model) string {
 			return fmt.Sprintf("%s{Struct: st}", s.Name)
 		}
 		return fmt.Sprintf("%s.%s()", reach(s.Parent), title(s.Short))
+	}
+	// the same path through the _Future wrappers, starting from the *capnp.Future fut of the root struct
+	var reachFuture func(i int) string
+	reachFuture = func(i int) string {
+		s := m.Structs[i]
+		if !s.IsGroup {
+			return fmt.Sprintf("%s_Future{Future: fut}", s.Name)
+		}
+		return fmt.Sprintf("%s.%s()", reachFuture(s.Parent), title(s.Short))
 	}
 	for i, s := range m.Structs {
 		root := m.Structs[s.Root]
@@ -393,6 +430,7 @@ func CheckFile(m Model) string {
 				p("\t\t%s)", which)
 			default:
 				spec := fmt.Sprintf("rt.PtrSpec{Layout: %s, Index: %d}", layout, f.Off)
+				nullStore := ""
 				switch f.Kind {
 				case "text":
 					p("\trt.CheckPtr(t, %s, rt.PtrOps{", spec)
@@ -407,6 +445,10 @@ func CheckFile(m Model) string {
 						p("\t\tGet: func(st capnp.Struct) (string, error) { return %s.%s() }}, %s)", E, F, which)
 					}
 				case "data":
+					if !f.HasDef {
+						// (with a default declared, Set(nil) stores an empty, non-null value - as Text does for "")
+						nullStore = fmt.Sprintf("%s.Set%s(nil)", E, F)
+					}
 					p("\trt.CheckPtr(t, %s, rt.PtrOps{", spec)
 					p("\t\tSet: func(st capnp.Struct) (string, error) { v := []byte(%q); return string(v), %s.Set%s(v) },", "dat-\x00\xff"+name, E, F)
 					p("\t\tGet: func(st capnp.Struct) (string, error) { v, err := %s.%s(); return string(v), err },", E, F)
@@ -414,6 +456,7 @@ func CheckFile(m Model) string {
 					p("\t\tHasDefault: true, Default: %q}, %s)", f.DefText, which)
 				case "struct":
 					t := m.Structs[f.Ref]
+					nullStore = fmt.Sprintf("%s.Set%s(%s{})", E, F, t.Name)
 					mark := ""
 					if t.DataWords > 0 {
 						mark = fmt.Sprintf("c.Struct.SetUint64(0, %#x); ", uint64(0xabcdef0123456789))
@@ -434,6 +477,22 @@ func CheckFile(m Model) string {
 					p("\trt.CheckPtr(t, %s, rt.PtrOps{", strings.Replace(spec, name, name+"/Set", 1))
 					p("\t\tSet: func(st capnp.Struct) (string, error) { c, err := New%s(st.Segment()); if err != nil { return \"\", err }; %sreturn rt.DescStruct(c.Struct), %s.Set%s(c) },", t.Name, mark, E, F)
 					p("\t\tGet: func(st capnp.Struct) (string, error) { c, err := %s.%s(); return rt.DescStruct(c.Struct), err }}, %s)", E, F, which)
+					// the promise (pipelining) accessor reads the same slot and applies this field's default - and only this
+					// field's: union members share pointer slots
+					FE := reachFuture(i)
+					p("\t{")
+					p("\t\t_, seg, _ := capnp.NewMessage(capnp.SingleSegment(nil))")
+					p("\t\tr, err := NewRoot%s(seg); if err != nil { t.Fatal(err) }", root.Name)
+					p("\t\tst := r.Struct")
+					p("\t\tfut := capnp.ImmediateAnswer(capnp.Method{}, st).Future()")
+					p("\t\tc, err := %s.%s().Struct()", FE, F)
+					p("\t\tif got := rt.DescStruct(c.Struct); err != nil || got != %q { rt.Fail(t, \"future-default\", \"%s: the _Future accessor on a null slot yields %%s (err %%v), the schema's default for this field is %s\", got, err) }", def, name, def)
+					p("\t\tn, err := %s.New%s(); if err != nil { t.Fatal(err) }", E, F)
+					p("\t\t%s_ = n", strings.Replace(mark, "c.Struct", "n.Struct", 1))
+					p("\t\tc, err = %s.%s().Struct()", FE, F)
+					p("\t\tif err != nil || !capnp.SamePtr(c.ToPtr(), n.ToPtr()) { rt.Fail(t, \"future-slot\", \"%s: the _Future accessor does not yield the struct stored in pointer slot %d (err %%v)\", err) }", name, f.Off)
+					p("\t\trt.Checks += 2")
+					p("\t}")
 				case "list":
 					lt := listType[f.Elem]
 					extra := ""
@@ -445,16 +504,32 @@ func CheckFile(m Model) string {
 					case "enum":
 						lt = m.Enums[f.ElemRef].Name + "_List"
 					}
+					nullStore = fmt.Sprintf("%s.Set%s(%s{})", E, F, lt)
 					p("\trt.CheckPtr(t, %s, rt.PtrOps{", spec)
 					p("\t\tSet: func(st capnp.Struct) (string, error) { var l %s; l, err := %s.New%s(3); if err != nil { return \"\", err }; %sreturn rt.DescList(l.List), nil },", lt, E, F, extra)
 					p("\t\tGet: func(st capnp.Struct) (string, error) { l, err := %s.%s(); return rt.DescList(l.List), err },", E, F)
 					p("\t\tHas: func(st capnp.Struct) bool { return %s.Has%s() },", E, F)
 					p("\t\tHasDefault: true, Default: \"null\"}, %s)", which)
+				case "interface":
+					it := m.Ifaces[f.Ref].Name
+					p("\trt.CheckPtr(t, %s, rt.PtrOps{", spec)
+					p("\t\tSet: func(st capnp.Struct) (string, error) { return \"cap\", %s.Set%s(%s{Client: capnp.ErrorClient(errCap)}) },", E, F, it)
+					p("\t\tGet: func(st capnp.Struct) (string, error) { c := %s.%s(); if c.Client == nil { return \"null\", nil }; return \"cap\", nil },", E, F)
+					p("\t\tHas: func(st capnp.Struct) bool { return %s.Has%s() },", E, F)
+					p("\t\tHasDefault: true, Default: \"null\"}, %s)", which)
+					nullStore = fmt.Sprintf("%s.Set%s(%s{})", E, F, it)
 				case "anyptr":
+					nullStore = fmt.Sprintf("%s.Set%s(capnp.Ptr{})", E, F)
 					p("\trt.CheckPtr(t, %s, rt.PtrOps{", spec)
 					p("\t\tSet: func(st capnp.Struct) (string, error) { x, err := capnp.NewText(st.Segment(), \"any\"); if err != nil { return \"\", err }; return \"any\", %s.Set%s(x.ToPtr()) },", E, F)
 					p("\t\tGet: func(st capnp.Struct) (string, error) { x, err := %s.%s(); return x.Text(), err },", E, F)
 					p("\t\tHas: func(st capnp.Struct) bool { return %s.Has%s() }}, %s)", E, F, which)
+				}
+				if nullStore != "" {
+					// storing "nothing" through the setter is still a store: it selects the union member and leaves the
+					// slot null
+					p("\trt.CheckPtr(t, %s, rt.PtrOps{NullStore: true,", strings.Replace(spec, name, name+"/null", 1))
+					p("\t\tSet: func(st capnp.Struct) (string, error) { return \"null\", %s }}, %s)", nullStore, which)
 				}
 			}
 		}
